@@ -153,6 +153,53 @@ fn run_decoders(ctx: &mut Ctx, lit: &[u8], pre: usize, post: usize, label: &str)
         Err(e) => es(e),
     };
     verdict(ctx, "Cow<str>", g, &strict, true, false);
+    // the refcounted carriers: a borrowed result points into the CALLER's buffer (short inputs are
+    // inlined into the reader's private FastStr) and is read after the deserializer is gone
+    {
+        let by = bytes::Bytes::copy_from_slice(&whole);
+        let r = {
+            let mut de = Deserializer::from_json(&by);
+            de.deserialize::<BCow>()
+        };
+        let churn: Vec<String> = (0..4).map(|i| format!("{:>40}", i)).collect();
+        std::hint::black_box(&churn);
+        let g = match r {
+            Ok(BCow(c)) => {
+                let b = matches!(c, Cow::Borrowed(_));
+                if b && !c.is_empty() && !within(&by, &c) {
+                    ctx.fail("borrowed-outside-input:Cow:from_json(&Bytes)", format!("Cow::Borrowed of a {}-byte Bytes input does not point into the caller's buffer", by.len()));
+                }
+                Got::Str(c.to_string(), Some(b))
+            }
+            Err(e) => es(e),
+        };
+        // (`Deserializer::deserialize` does not look behind the first token)
+        if token_ok || !matches!(g, Got::Str(..)) {
+            verdict(ctx, "Cow<str>:from_json(&Bytes)", g, &strict, true, false);
+        }
+        if let Ok(st) = std::str::from_utf8(&whole) {
+            let fs = faststr::FastStr::new(st);
+            let r = {
+                let mut de = Deserializer::from_json(&fs);
+                de.deserialize::<BCow>()
+            };
+            let churn: Vec<String> = (0..4).map(|i| format!("{:>41}", i)).collect();
+            std::hint::black_box(&churn);
+            let g = match r {
+                Ok(BCow(c)) => {
+                    let b = matches!(c, Cow::Borrowed(_));
+                    if b && !c.is_empty() && !within(fs.as_bytes(), &c) {
+                        ctx.fail("borrowed-outside-input:Cow:from_json(&FastStr)", format!("Cow::Borrowed of a {}-byte FastStr input does not point into the caller's buffer", fs.len()));
+                    }
+                    Got::Str(c.to_string(), Some(b))
+                }
+                Err(e) => es(e),
+            };
+            if token_ok || !matches!(g, Got::Str(..)) {
+                verdict(ctx, "Cow<str>:from_json(&FastStr)", g, &strict, true, false);
+            }
+        }
+    }
     // &str target: succeeds iff well-formed and escape-free
     ctx.ops(1);
     match sonic_rs::from_slice::<&str>(&whole) {
